@@ -12,9 +12,20 @@ class C16(Spec):
         "C16.unknown_type_rejects", "C16.unsigned_rejects", "C16.altered_sig_rejected_full_false",
         "C16.altered_sig_rejected_partial", "C16.altered_sig_rejected_exact65",
         "C16.appended_bytes_ignored_first64", "C16.appended_bytes_ignored_der",
+        "C16.altered_field_rejected_partial", "C16.altered_header_rejected_partial",
+        "C16.altered_pubkey_rejected_partial", "C16.altered_field_rejected_full_false",
+        "C16.altered_pubkey_rejected_full_false",
     )
-    partial = ("C16.altered_sig_rejected_partial",)
-    refuted = ("C16.altered_sig_rejected_full_false", "C16.altered_sig_rejected_der_false")
+    # hypotheses added w.r.t. the property text:
+    #  altered_sig_rejected_partial   : parsed form differs (parseSig p sig' != parseSig p sig) + verifier accepts <= 1 parsed signature
+    #  altered_field_rejected_partial / altered_header_rejected_partial : scheme is message-binding (C16.MsgBinding)
+    #  altered_pubkey_rejected_partial: scheme is key-binding (C16.KeyBinding) — false of plain ECDSA (finding)
+    #  sign_binds / header_is_signed  : conclude only that the signed bytes differ (no scheme hypothesis)
+    partial = ("C16.altered_sig_rejected_partial", "C16.altered_field_rejected_partial",
+               "C16.altered_header_rejected_partial", "C16.altered_pubkey_rejected_partial",
+               "C16.sign_binds", "C16.header_is_signed")
+    refuted = ("C16.altered_sig_rejected_full_false", "C16.altered_sig_rejected_der_false",
+               "C16.altered_field_rejected_full_false", "C16.altered_pubkey_rejected_full_false")
     level_text = (
         "Lean theorems about a field-by-field model of types.Transaction: the proto3 encoding is injective on "
         "in-range records (varint/length-delimited prefix-freeness, fields peeled by tag), hence Hash binds every "
@@ -27,6 +38,10 @@ class C16(Spec):
         "on the real code with every proto field mutated in turn, for every registered key-based crypto driver x "
         "address id, at heights around each enable height under several crypto.Init configurations.")
     level_note = (
+        "'CheckSign fails after altering a signed field / the public key' is proved only under named hypotheses on "
+        "the scheme (MsgBinding resp. KeyBinding; both shown necessary by a lax scheme). KeyBinding is FALSE of the "
+        "plain-ECDSA drivers: the alternative key recovered from an honest signature verifies the same message "
+        "(replayed on secp256k1 and secp256r1, known findings). "
         "Partial on the cryptographic soundness of the drivers: 'altered signature bytes are rejected' is refuted for "
         "the prefix-tolerant parsers (witness in Lean, replayed on the code, listed as known findings) and proved "
         "only up to the parsed form; unforgeability is not assumed and nothing is concluded from it. SHA-256 is "
